@@ -259,3 +259,22 @@ package pmm
 //@   ensures slot: mem32(addrof(region)+16) == 1 ==> alloc.poolsHdr.Len == old(alloc.poolsHdr.Len) + 1 && alloc.poolsHdr.Cap == old(alloc.poolsHdr.Cap) + 1
 //@   ensures pages: mem32(addrof(region)+16) == 1 ==> alloc.totalPages == old(alloc.totalPages) + uint32(regEnd(addrof(region)) - regStart(addrof(region)) + 1)
 //@   ensures bytes: mem32(addrof(region)+16) == 1 ==> (requiredBitmapBytes - old(requiredBitmapBytes)) & 7 == 0 && (requiredBitmapBytes - old(requiredBitmapBytes)) * 8 >= uint64(regEnd(addrof(region)) - regStart(addrof(region))) + 1 && (requiredBitmapBytes - old(requiredBitmapBytes)) * 8 < uint64(regEnd(addrof(region)) - regStart(addrof(region))) + 1 + 64
+
+// VisitMemRegions as seen by pmm, which passes concrete closures: ASSUMED to do nothing but call
+// the visitor on memory-map entries (its own contract, proved in package multiboot against an
+// abstract visitor, says which entries and in which order); what may change is therefore what
+// pmm's visitors may change, plus the in-place type normalisation of entries
+//@ func multiboot.VisitMemRegions~callers(visitor multiboot.MemRegionVisitor)
+//@   trusted
+//@   modifies mem, BootMemAllocator.lastAllocFrame, elems(*kernel.Error), elems(uint64), elems(int), elems(uintptr), BitmapAllocator.totalPages, reflect.SliceHeader.Len, reflect.SliceHeader.Cap, reflect.SliceHeader.Data, framePool.startFrame, framePool.endFrame, framePool.freeCount, framePool.freeBitmap
+
+// BootMemAllocator.AllocFrame, the part around the memory-map walk (C02): a hand-out returns
+// the cursor and counts it; otherwise InvalidFrame and the out-of-memory error are returned and
+// the count is unchanged. Which cursor value the walk leaves is the subject of the per-entry
+// contract above; the walk itself is seen through the abstraction just stated.
+//@ func (alloc *BootMemAllocator) AllocFrame() (f mm.Frame, e *kernel.Error)
+//@   property C02
+//@   requires alloc != nil
+//@   modifies mem, BootMemAllocator.lastAllocFrame, alloc.allocCount, elems(*kernel.Error), elems(uint64), elems(int), elems(uintptr), BitmapAllocator.totalPages, reflect.SliceHeader.Len, reflect.SliceHeader.Cap, reflect.SliceHeader.Data, framePool.startFrame, framePool.endFrame, framePool.freeCount, framePool.freeBitmap
+//@   ensures ok: e == nil ==> f == alloc.lastAllocFrame && alloc.allocCount == old(alloc.allocCount) + 1
+//@   ensures oom: e != nil ==> e == errBootAllocOutOfMemory && f == mm.InvalidFrame && alloc.allocCount == old(alloc.allocCount)
